@@ -33,11 +33,13 @@ pub fn one_len<T: Real>(n: usize, planners: &[PK], rep: &mut Report, only: Optio
     for (pk, d, m) in panics {
         rep.violate(key(pk, T::NAME, d, n, Entry::InPlace, 0, "plan"), format!("planning panicked: {}", m), Json::Null);
     }
-    let cont = contents::<T>();
+    // beyond the pool range (lengths above 2^16) the product is thinned: k = 1, two scratch lengths, three contents
+    let light = n > 20000;
+    let cont: Vec<(&'static str, C<T>)> = if light { contents::<T>().into_iter().filter(|c| matches!(c.0, "zero" | "nan" | "huge")).collect() } else { contents::<T>() };
     for (pk, d, f) in &ffts {
         rep.states += 1;
         for e in Entry::EXPLICIT {
-            for k in [1usize, 2] {
+            for k in if light { vec![1usize] } else { vec![1usize, 2] } {
                 if let Some((opk, od, oe, ok)) = only {
                     if opk != *pk || od != *d || oe != e || ok != k {
                         continue;
@@ -49,7 +51,7 @@ pub fn one_len<T: Real>(n: usize, planners: &[PK], rep: &mut Report, only: Optio
                 }
                 let adv = e.scratch_len(f.as_ref());
                 let mut reference: Option<Vec<C<T>>> = None;
-                let mut lens_: Vec<usize> = vec![adv, adv + 1, adv + 17, 2 * adv];
+                let mut lens_: Vec<usize> = if light { vec![adv, adv + 17] } else { vec![adv, adv + 1, adv + 17, 2 * adv] };
                 lens_.dedup();
                 for &sl in &lens_ {
                     for (sname, sval) in &cont {
@@ -192,11 +194,14 @@ pub fn run(ctx: &Ctx) -> i32 {
     let mut l = lens::dense(dense_n);
     let pool = lens::thin(&lens::pool(dense_n, t.pick(1 << 13, 1 << 14)), t.pick(24, 150));
     l.extend(pool.iter().map(|x| x.0));
+    let big: Vec<usize> = lens::beyond_u16(t == crate::framework::Tier::Thorough).iter().map(|x| x.0).filter(|&n| t == crate::framework::Tier::Thorough || n < 200_000).collect();
+    l.extend(big.iter().cloned());
     l.reverse();
     let parts = par_map(&l, |_, &n| {
         let mut r = Report::new();
-        one_len::<f32>(n, &PK::ALL, &mut r, None);
-        one_len::<f64>(n, &PK::ALL, &mut r, None);
+        let pks: &[PK] = if n > 20000 { &PK::DISTINCT } else { &PK::ALL };
+        one_len::<f32>(n, pks, &mut r, None);
+        one_len::<f64>(n, pks, &mut r, None);
         r
     });
     let mut rep = Report::new();
@@ -217,8 +222,9 @@ pub fn run(ctx: &Ctx) -> i32 {
     rep.sample(Json::Str(key(PK::Avx, "f32", FftDirection::Forward, 59, Entry::Immut, 2, "scratch_len=adv+17:scratch=nan:out=-inf")));
     rep.sample(Json::Str(key(PK::Scalar, "f64", FftDirection::Inverse, dense_n, Entry::OutOfPlace, 1, "scratch_len=adv+0:scratch=pattern:out=huge")));
     rep.set("pool_lengths", Json::Arr(pool.iter().map(|x| Json::Int(x.0 as i64)).collect()));
+    rep.set("lengths_beyond_2^16", Json::Arr(big.iter().map(|x| Json::Int(*x as i64)).collect()));
     rep.rule = format!(
-        "planners x {{f32,f64}} x {{fwd,inv}} x every n in 1..={dn} (plus {pc} pool lengths up to {ph}) x the 3 explicit-scratch entry points x k in {{1,2}} x scratch length in {{adv, adv+1, adv+17, 2*adv}} x initial scratch content in {{0, NaN, +Inf, -Inf, huge, bit pattern}} x initial output content in the same 6: the full product; every variant must complete, be finite and be bit-identical to the (zero, advertised) variant. exact layer: FftPlanner::<Fp>, n in 1..={en}, poison-tagged scratch (adv, +1, +17) and output: no poison in the result, result equals the DFT in F_p. Non-trivial: n >= 2.",
+        "planners x {{f32,f64}} x {{fwd,inv}} x every n in 1..={dn} (plus {pc} pool lengths up to {ph}, plus the lengths_beyond_2^16 with a thinned product: k=1, scratch adv/adv+17, contents zero/NaN/huge) x the 3 explicit-scratch entry points x k in {{1,2}} x scratch length in {{adv, adv+1, adv+17, 2*adv}} x initial scratch content in {{0, NaN, +Inf, -Inf, huge, bit pattern}} x initial output content in the same 6: the full product; every variant must complete, be finite and be bit-identical to the (zero, advertised) variant. exact layer: FftPlanner::<Fp>, n in 1..={en}, poison-tagged scratch (adv, +1, +17) and output: no poison in the result, result equals the DFT in F_p. Non-trivial: n >= 2.",
         dn = dense_n,
         pc = pool.len(),
         ph = t.pick(1 << 13, 1 << 14),
